@@ -105,7 +105,15 @@ def frame_parser_rules(prog, chk, pid):
         return
     mk_, ln, sk, pay, crc = items
     L = ln.int_views[0] if ln.int_views else None
-    okg = is_const(mk_.size) and cval(mk_.size) == 1 and is_const(ln.size) and cval(ln.size) == 1 and L is not None and is_const(crc.size) and cval(crc.size) == 2 and bool(crc.int_views) and crc.order == "big"
+    # the stored CRC is either converted to an int (big endian) or compared as two bytes with crc.to_bytes(2, "big")
+    def crc_as_bytes(x, y):
+        x, y = unsnap(x), unsnap(y)
+        mcx = meth_call(x)
+        return bool(mcx) and mcx[1] == "to_bytes" and is_call_named(unsnap(mcx[0]), "crc8404B") and len(mcx[2]) >= 1 and is_const(mcx[2][0]) and cval(mcx[2][0]) == 2 and (
+            (len(mcx[2]) > 1 and is_const(mcx[2][1]) and cval(mcx[2][1]) == "big") or (dict(mcx[3]).get("byteorder") is not None and is_const(dict(mcx[3])["byteorder"]) and cval(dict(mcx[3])["byteorder"]) == "big")) and y is unsnap(crc.result)
+
+    bytes_cmp = [e for e in res.events if e.kind == "op" and e.d["op"] in ("Eq", "NotEq") and any(crc_as_bytes(a, b) for a, b in (tuple(e.d["args"]), tuple(reversed(e.d["args"]))))]
+    okg = is_const(mk_.size) and cval(mk_.size) == 1 and is_const(ln.size) and cval(ln.size) == 1 and L is not None and is_const(crc.size) and cval(crc.size) == 2 and ((bool(crc.int_views) and crc.order == "big") or bool(bytes_cmp))
     okg = okg and lin_eq(lin(pay.size), {("atom", unsnap(L).uid): 1, 1: -2})
     chk.require(okg, P("parser-grammar"), fi.qualname, show_reader(rd), where, "reads B(1) marker, U8 L, payload of L-2 bytes, U16 big-endian CRC", "field sizes deviate: %s" % show_reader(rd))
     # seek target = len(ciphertext) - L: together with the builder's layout (payload+crc are the last L bytes of a frame as long as the ciphertext)
@@ -124,6 +132,10 @@ def frame_parser_rules(prog, chk, pid):
             x, y = unsnap(x), unsnap(y)
             if is_call_named(x, "crc8404B") and len(x.args[1]) == 1 and unsnap(x.args[1][0]) is unsnap(pay.result) and not x.args[2] and any(y is v for v in crc.int_views):
                 return True
+            if crc_as_bytes(x, y):
+                c_ = unsnap(meth_call(x)[0])
+                if len(c_.args[1]) == 1 and unsnap(c_.args[1][0]) is unsnap(pay.result) and not c_.args[2]:
+                    return True
         return False
 
     gs = find_guards(res.events, crc_pred)
